@@ -378,6 +378,20 @@ func (v *Verifier) VerifyFunc(pkg *ssa.Package, c *Contract, pool *Pool) (res *F
 		res.Reason = "interface method contract: " + c.Assumed
 		return
 	}
+	if c.Theorem {
+		// pure SMT goals proved from the block's own preamble (definitions only): no program, no hypotheses
+		v.resetRun()
+		pre := strings.Join(c.SMT, "\n") + "\n"
+		for _, g := range c.Goals {
+			o := &Obligation{Name: res.Func + "#goal:" + g.Name, Kind: "lemma", Func: res.Func, Spec: g.SMT, Preamble: pre}
+			script := "; obligation " + o.Name + "\n" + pre + "(assert (not " + g.SMT + "))\n(check-sat)\n"
+			o.Bytes = len(script)
+			res.Obls = append(res.Obls, o)
+			pool.Submit(o, script)
+		}
+		res.Status = "pending"
+		return
+	}
 	fn := v.findFunc(pkg, c.Func)
 	if fn == nil {
 		res.Status = "missing"
